@@ -1565,14 +1565,19 @@ class DiameterMessage:
         #: Keeps the named attribute and the Diameter Message Length field 
         #: in line with the replaced list slot.
         if isinstance(old, DiameterAVP) and isinstance(value, DiameterAVP):
-            bound = False
-            for key, item in list(self.__dict__.items()):
-                if key == "_avps":
-                    continue
-                if item is value:
-                    bound = True
-                elif item is old:
+            #: One name per list slot: an object which is listed more than 
+            #: once keeps as many names as the slots it still fills.
+            old_keys = [key for key, item in self.__dict__.items()
+                                    if key != "_avps" and item is old]
+            still_listed = sum(1 for avp in self._avps if avp is old)
+            if old is not value:
+                for key in old_keys[still_listed:]:
                     self.__dict__.pop(key)
+
+            value_keys = [key for key, item in self.__dict__.items()
+                                    if key != "_avps" and item is value]
+            bound = len(value_keys) >= sum(1 for avp in self._avps 
+                                                        if avp is value)
 
             if not bound:
                 #: Same naming rule as the append method.
